@@ -150,6 +150,11 @@ func runRT(t *testing.T, sc *rtSc) (res verifsim.Result) {
 		prevMembers := map[peer.ID]bool{}
 		prevLogLen := 0
 		cancelledWindows := [][2]time.Duration{}
+		fixlowWindows := [][2]time.Duration{} // the low-peers repair runs synchronously: its bootstrap connection attempts start inside these
+		bootPeer := map[peer.ID]bool{}
+		for _, b := range sc.Boot {
+			bootPeer[peer.ID(pp.IDs[sc.Peers[b%len(sc.Peers)].ID])] = true
+		}
 		settle := func() { time.Sleep(3 * time.Minute); verifsim.Quiesce() }
 		check := func(step string) bool {
 			members := d.RoutingTable().ListPeers()
@@ -212,11 +217,25 @@ func runRT(t *testing.T, sc *rtSc) (res verifsim.Result) {
 				}
 				return false
 			}
+			bootDial := func(e verifnet.Exchange) bool {
+				if !bootPeer[e.Peer] {
+					return false
+				}
+				for _, w := range fixlowWindows {
+					if e.Start >= w[0] && e.Start <= w[1] {
+						return true
+					}
+				}
+				return false
+			}
 			last := map[peer.ID]interaction{}
 			for i, e := range log {
 				switch {
 				case e.Kind == "request" && e.Outcome == "ok":
 					last[e.Peer] = interaction{i, "ok"}
+				case (e.Outcome == "fail" || e.Outcome == "timeout") && e.Kind == "dial" && bootDial(e):
+					// a connection attempt of the low-peers repair to a configured bootstrap peer (it tries them in a random
+					// order): neither a lookup nor a liveness probe, its failure says nothing about membership
 				case (e.Outcome == "fail" || e.Outcome == "timeout") && !inCancelled(e):
 					last[e.Peer] = interaction{i, "fail"}
 				case e.Outcome == "cancelled" && livenessDeadline[e.End] && e.End-e.Start == 10*time.Second:
@@ -342,7 +361,9 @@ func runRT(t *testing.T, sc *rtSc) (res verifsim.Result) {
 					return
 				}
 			case "fixlow":
+				t0 := sim.Now()
 				d.fixLowPeers()
+				fixlowWindows = append(fixlowWindows, [2]time.Duration{t0, sim.Now()})
 			case "advance":
 				time.Sleep(time.Duration(ev.Min) * time.Minute)
 			case "health":
